@@ -185,6 +185,7 @@ type Exec struct {
 	PinViol  []string
 	PlanShapes map[string]int
 	PinGrowth, PinChecks int
+	PlanByStmt map[string]string // statement text -> plan shape (last execution)
 	StmtCount int
 	Txns      []*TxnRec
 }
@@ -263,11 +264,20 @@ func (e *Exec) run1(i int, op Op) OpOutcome {
 			before = e.S.PinVector()
 		}
 		disk.SimMark("stmt-begin", sl.st.ID(), int64(i))
-		res := sl.st.Exec(op.Stmt.SQL())
+		var res ExecResult
+		if op.Stmt.Plan && op.Stmt.Kind == "insert" {
+			res = sl.st.PlanInsert(op.Stmt, e.M.Table(op.Stmt.Table))
+		} else {
+			res = sl.st.Exec(op.Stmt.SQL())
+		}
 		disk.SimMark("stmt-end", sl.st.ID(), int64(i))
 		e.StmtCount++
 		if res.Plan != "" {
 			e.PlanShapes[op.Stmt.Kind+":"+planKind(res.Plan)]++
+			if e.PlanByStmt == nil {
+				e.PlanByStmt = map[string]string{}
+			}
+			e.PlanByStmt[op.Stmt.SQL()] = res.Plan
 		}
 		if res.Panic != nil {
 			return e.fail(i, res.Panic)
